@@ -211,6 +211,15 @@ func TestCheck(t *testing.T) {
 						if oc == "rollback" {
 							t2 := pager.RTx{Create: true, NewSize: n + 1, SyncMode: sync, Final: fin, Outcome: "commit"}
 							ops = append(ops, prog.Op{Kind: "rtx", R: &t2})
+							if n <= 2 {
+								// the same, but the second attempt uses another page size (PRAGMA page_size before the first page exists)
+								other := 4096
+								if ps == 4096 {
+									other = 512
+								}
+								cases = append(cases, prog.Case{PageSize: ps, Start: 0, Ops: []prog.Op{{Kind: "rtx", R: &t1}, {Kind: "repage", Max: uint32(other)}, {Kind: "rtx", R: &t2}}})
+								nCreate++
+							}
 						} else {
 							t2 := pager.RTx{Mods: []uint32{n}, NewSize: n + 1, SyncMode: sync, Final: fin, Outcome: "commit"}
 							ops = append(ops, prog.Op{Kind: "rtx", R: &t2})
